@@ -36,6 +36,7 @@ const (
 	TArray
 	TDoc
 	TMissing
+	TFlatArr // modifier: elements of arrays are never arrays themselves
 )
 
 const (
@@ -179,8 +180,12 @@ func value(id string, keys []string, maxLen int, tags uint32, depth int) interfa
 	case TArray:
 		n := Choice(id+".len", maxLen+1)
 		a := make(primitive.A, n)
+		etags := ctags
+		if tags&TFlatArr != 0 {
+			etags &^= TArray
+		}
 		for i := range a {
-			a[i] = value(fmt.Sprintf("%s[%d]", id, i), keys, maxLen, ctags, depth-1)
+			a[i] = value(fmt.Sprintf("%s[%d]", id, i), keys, maxLen, etags, depth-1)
 		}
 		return a
 	case TDoc:
